@@ -6,7 +6,7 @@ Local Open Scope Z_scope.
 Inductive holder := HVar (id : N) | HArr (id : N).
 
 Definition blank_ctx_like (cx : ctx) : ctx :=
-  mkCtx (x_parent cx) (x_name cx) [] [] [] [] [] (x_isfun cx) (x_isrec cx) (x_rettype cx) None None.
+  mkCtx (x_parent cx) (x_name cx) [] [] [] [] [] (x_isfun cx) (x_isrec cx) (x_rettype cx) None None (x_depth cx).
 
 Fixpoint zipM {A B} (f : A -> B -> M unit) (l1 : list A) (l2 : list B) : M unit :=
   match l1, l2 with
